@@ -32,6 +32,7 @@ type parser struct {
 	N      int
 	mask   []string
 	Depth  int
+	nest   int
 }
 
 func symAtPos(pos scanner.Position, symbol string) *token {
@@ -95,7 +96,20 @@ func (p *parser) Expression(rbp int, mask ...string) *token {
 	return tok
 }
 
+// enter counts one level of parser recursion that does not go through Expression (prefix operators, nested types);
+// the caller defers p.leave().
+func (p *parser) enter() {
+	p.nest++
+	if p.nest > maxParseDepth {
+		panicf("nested too deeply")
+	}
+}
+
+func (p *parser) leave() { p.nest-- }
+
 func (p *parser) doExpression(rbp int) *token {
+	p.enter()
+	defer p.leave()
 	t := p.Token
 	p.Next()
 	left := getSymbol(t).Nud(p, t)
